@@ -2,6 +2,7 @@ import Model.Ledger
 import Proofs.Map
 import Gen.AddBlockNv
 import Gen.HeadSwitches
+import Model.Spec
 import Props.GenTie.Head
 
 /-!
@@ -63,5 +64,36 @@ theorem add_block_no_validation_eq (C : Crypto) (cs : CoinState) (b : Block) :
             by_cases hc : c = b.prev
             · simp [okOf', hh, hcur, hc]
             · cases hb : cs.blocks.get? c <;> simp [okOf', hh, hcur, hc, hb]
+
+/-- a whole arrival history folded with the translated update -/
+def foldTranslated (C : Crypto) : CoinState → List Block → Except Err CoinState
+  | cs, [] => .ok cs
+  | cs, b :: rest =>
+    match Gen.add_block_no_validation C (chooseTranslated C) cs b with
+    | .error e => .error e
+    | .ok cs' => foldTranslated C cs' rest
+
+/-- … is the model's `foldBlocks`: every theorem of C03 / C04 / C10 about states built by `foldBlocks` from an arrival history is
+a theorem about the states the code's own update builds from it -/
+theorem foldTranslated_eq (C : Crypto) (bs : List Block) : ∀ cs : CoinState,
+    okOf' (foldTranslated C cs bs) = okOf' (foldBlocks C cs bs) := by
+  induction bs with
+  | nil => intro cs; rfl
+  | cons b rest ih =>
+    intro cs
+    have h := add_block_no_validation_eq C cs b
+    simp only [foldTranslated, foldBlocks]
+    cases h1 : Gen.add_block_no_validation C (chooseTranslated C) cs b with
+    | error e =>
+      cases h2 : addBlockNoValidation C cs b with
+      | error e' => simp [okOf']
+      | ok s' => simp [h1, h2, okOf'] at h
+    | ok s =>
+      cases h2 : addBlockNoValidation C cs b with
+      | error e' => simp [h1, h2, okOf'] at h
+      | ok s' =>
+        simp only [h1, h2, okOf', Option.some.injEq] at h
+        subst h
+        exact ih s
 
 end GenTie
